@@ -13,7 +13,13 @@ const P: &str = "C16";
 const ERR_KINDS: [std::io::ErrorKind; 4] = [std::io::ErrorKind::Other, std::io::ErrorKind::Interrupted, std::io::ErrorKind::UnexpectedEof, std::io::ErrorKind::WouldBlock];
 
 fn writer_program(ctx: &Ctx) -> Program {
-    let kind = ctx.pick("program-kind", 2);
+    let kind = ctx.pick("program-kind", 3);
+    if kind == 2 {
+        // every image representation kind with and without mask (payloads crossing a page end)
+        let k = ctx.pick("image-kind", 5);
+        let mask = ctx.pick("mask", 2) == 1;
+        return Program { guid: "g".into(), ops: vec![Op::Image(image(k, mask, 1100, 7)), Op::Blob(crate::harness::pattern(3, 10))], ..Default::default() };
+    }
     if kind == 0 {
         // hand-listed shapes shared with C15
         let k = ctx.pick("special", crate::c15::N_SPECIAL);
